@@ -22,6 +22,7 @@ PV = "pyxel/observation/parameter_values.py"
 TRUSTED = ["shapes are bounded: 1..3 parameters, list lengths 1..3, 1..2 table rows (symbolic values, defaults and enabled flags inside each shape)",
            "itertools.product order; pandas MultiIndex.from_product / Series.to_xarray keep product order (boundary)", "xarray places each run at its coordinates (boundary)",
            "processor.get(key) returns the configured default of key"]
+LEVEL = "other"      # bounded family of shapes: not claimed as an unbounded proof
 SHAPES = [(2,), (1, 3), (3, 2), (2, 1, 2), (2, 3, 2)]
 
 
